@@ -103,8 +103,32 @@ def check_entries(ctx, w):
     ctx.ob('E-i', f.construct, 'length word parsed at offset', tr.get('entry_length') == [('=', 'struct_parse(the_Dwarf_uint32,stream,offset)')], got=tr.get('entry_length'))
     ctx.ob('E-i', f.construct, 'format 64 iff length word == 0xffffffff', tr.get('dwarf_format') == [('=', expr.spec_nf('64 if entry_length == 0xFFFFFFFF else 32'))],
            got=tr.get('dwarf_format'))
-    ctx.ob('E-i', f.construct, 'id/pointer field is offset-sized, read right after the length', tr.get('CIE_id') == [('=', 'struct_parse(the_Dwarf_offset,stream)')],
-           got=tr.get('CIE_id'))
+    # the discriminator is peeked before the header is parsed: it must be read at the position the header layout gives the
+    # CIE_id / CIE_pointer field in *each* format (4 in 32-bit DWARF, 12 after the 0xffffffff escape and the 8-byte length)
+    cid = tr.get('CIE_id')
+    rel_form = [('=', 'struct_parse(the_Dwarf_offset,stream)')]
+    abs_form = [('=', 'struct_parse(the_Dwarf_offset,stream,%s)' % expr.spec_nf('offset + entry_structs.initial_length_field_size()'))]
+    ctx.ob('E-i', f.construct, 'id/pointer field is offset-sized', cid in (rel_form, abs_form), got=cid)
+    for fmt in (32, 64):
+        for attr, fld in (('Dwarf_CIE_header', 'CIE_id'), ('Dwarf_FDE_header', 'CIE_pointer'), ('EH_CIE_header', 'CIE_id')):
+            st = dwconf.structs_for(w, True, fmt, 8, 4)
+            fl = layout.flatten(w, dwconf.irb(w).to_ir(layout.struct_attr(w, st, attr)), {} if 'FDE' in attr else {'version': 3})
+            before = 0
+            found = False
+            for name, atom in fl:
+                if name == fld:
+                    found = True
+                    break
+                before += {'initlen': 4 if fmt == 32 else 12}.get(atom) or (int(atom[1:-1]) // 8 if atom[:1] in 'us' and atom[1:-1].isdigit() else 10 ** 6)
+            if cid == abs_form:
+                at = 4 if fmt == 32 else 12      # offset + initial_length_field_size() (decision table of that method: E-ii in C04/C16)
+            elif cid == rel_form:
+                at = 4                            # right after the 4-byte length word parsed at `offset`
+            else:
+                at = None
+            ctx.ob('E-i', f.construct, 'DWARF%d: discriminator read at the header position of %s.%s (+%d)' % (fmt, attr, fld, before), found and at == before,
+                   got=at, expected=before, msg='the CIE/FDE discriminator is read at a position that is not the field\'s position in this format: '
+                   'a 64-bit entry is classified from the bytes of its own length field')
     want = [('=', expr.spec_cond('CIE_id == 0')), ('=', expr.spec_cond('(dwarf_format == 32 and CIE_id == 0xFFFFFFFF) or CIE_id == 0xFFFFFFFFFFFFFFFF'))]
     ctx.ob('E-i', f.construct, '.eh_frame: id 0 is a CIE; .debug_frame: all-ones id of the format', tr.get('is_CIE') == want, got=tr.get('is_CIE'), expected=want,
            msg='CIE/FDE discrimination differs from DWARF §6.4.1 / LSB')
@@ -594,6 +618,8 @@ def check_link(ctx, w):
 
 ST = 'dwarf/structs.py'
 MUTANTS = [
+    ('peek-relative', CF, "            entry_structs.the_Dwarf_offset, self.stream,\n            offset + entry_structs.initial_length_field_size())", "            entry_structs.the_Dwarf_offset, self.stream)", 'E-i'),
+    ('peek-plus4', CF, "            offset + entry_structs.initial_length_field_size())", "            offset + 4)", 'E-i'),
     ('unbound-last-line', CF, "                last_line_in_CIE = dict()\n", "", 'R-DEF'),
     ('def-cfa-sf-code', CF, "                    offset=instr.args[1] * cie['data_alignment_factor'])\n            elif name == 'DW_CFA_def_cfa_register':", "                    offset=instr.args[1] * cie['code_alignment_factor'])\n            elif name == 'DW_CFA_def_cfa_register':", 'G-INT'),
     ('def-cfa-offset-sf-code', CF, "offset=instr.args[0] * cie['data_alignment_factor'])", "offset=instr.args[0] * cie['code_alignment_factor'])", 'G-INT'),
